@@ -5,9 +5,10 @@
 # Stores patch, demonstration, notes and the confirmation log in /verif/seeded/<Cxx>-<k>/ ; removes the worktree.
 set -u
 P="$1"; K="$2"; NOTESTS="${3:-}"
-SRC=/tmp/seed/out-$P
-WT=/var/tmp/seedwt-$P-$K
-DST=/verif/seeded/$P-$K
+R="${ROUND:-}"   # ROUND=r2 takes the second-round outputs (/tmp/seed/r2-out-Cxx) and stores them as seeded/Cxx-r2-k
+SRC=/tmp/seed/${R:+$R-}out-$P
+WT=/var/tmp/seedwt-$P-${R:+$R-}$K
+DST=/verif/seeded/$P-${R:+$R-}$K
 mkdir -p "$DST"
 LOG="$DST/confirm.log"
 : > "$LOG"
